@@ -20,39 +20,11 @@ ASSUMPTIONS = ['single-threaded (the quantifier has no schedules)', 'a save atte
 
 
 def capture_failed(res):
-    """From the interpreter's fault log + program: did a capture fault / discard actually happen?"""
-    decls = res.live.decls
+    """From the interpreter's fault log (what actually happened in this run): did a capture fault / discard happen?"""
     for pos, kind in res.live.fault_log:
-        if kind in ('discard', 'body_discard', 'handler_raises', 'resolver_raises'):
+        if kind in ('discard', 'body_discard', 'handler_raises', 'resolver_raises', 'badkey_key'):
             return kind
-        if kind == 'badkey':
-            # key building fails only if the unencodable argument is captured by an input
-            step = step_at(res.prog, pos)
-            if step is not None and step['op'] == 'in':
-                d = decls[step['decl']]
-                cap = d.get('capture', 'all')
-                if cap == 'all' or (cap != 'none' and 0 in cap and step['args']) or (cap == 'all' and not step['args']):
-                    return 'badkey_key'
     return None
-
-
-def step_at(prog, pos):
-    """pos = ('main', k): k-th executed top-level/try step of the main thread in a single-threaded program."""
-    k = [0]
-    found = [None]
-
-    def walk(steps):
-        for s in steps:
-            if found[0] is not None:
-                return
-            if k[0] == pos[1]:
-                found[0] = s
-                return
-            k[0] += 1
-            if s['op'] == 'try':
-                walk(s['body'])
-    walk(prog['body'])
-    return found[0]
 
 
 def judge(ctx, res, w, replay_saved=True):
